@@ -986,7 +986,10 @@ func runHistory(t *testing.T, h *History) (lines []string) {
 		bodies := rs.bodies
 		rs.mu.Unlock()
 		for _, tb := range bodies {
-			if !tb.released.Load() && tb.ctx.Err() == nil {
+			// (a BACKGROUND request's context is always cancelled in the end — by the cache itself, when its goroutine
+			// returns: that is not a release. net/http's transports do tear the connection down then; an upstream that
+			// frees what it holds on Close or EOF only, as the RoundTripper contract allows it to, is left holding it)
+			if !tb.released.Load() && (tb.ctx.Err() == nil || tb.stream == "bg") {
 				rs.emit("O\tBODYLEAK\t%d\t%s\t%d", tb.n, tb.stream, tb.k)
 			}
 		}
